@@ -23,22 +23,26 @@ CHECKS = {
                 design='DESIGN.md section 4 C05'),
     'C11': dict(technique='TLA+ model checking (TLC): action property NoTrample + behaviour replay comparing file bytes and roles',
                 design='DESIGN.md section 4 C11'),
+    'C04': dict(technique='TLA+ model checking (TLC): OnlyCompleteOutput/NoTmpLeft action properties over an output-channel table + behaviour replay with size classes and a concurrent reader',
+                design='DESIGN.md section 4 C04'),
+    'C07': dict(technique='TLA+ model checking (TLC) of every interleaving at -j2/-j3, schedule-independence of outcomes + jittered real runs matched against specification behaviours',
+                design='DESIGN.md section 4 C07'),
+    'C12': dict(technique='TLA+ model checking (TLC): NotHung (ENABLED), CycleReported on cyclic programs + behaviour replay under a wall-clock bound',
+                design='DESIGN.md section 4 C12'),
+    'C17': dict(technique='TLA+ model checking (TLC): query bounds (OodLower/OodUpper/partition) against the MustRun reference + behaviour replay with queries at every position',
+                design='DESIGN.md section 4 C17'),
     'C14': dict(technique='TLA+ model checking (TLC) on ifcreate/always programs + behaviour replay',
                 design='DESIGN.md section 4 C14'),
 }
 
 PENDING = {
-    'C04': 'check under construction in this session (output-channel table over RedoSys); not claimed yet',
     'C06': 'check under construction (multi-invocation lock model + trace validation); not claimed yet',
-    'C07': 'check under construction (J>1 schedules of RedoSys); not claimed yet',
     'C08': 'check under construction (RedoJobs token model + trace validation); not claimed yet',
     'C09': 'check under construction (RedoJobs scheduler model); not claimed yet',
     'C10': 'check under construction (Crash action + kill injection); not claimed yet',
-    'C12': 'check under construction (cycle programs over RedoSys); not claimed yet',
     'C13': 'check under construction (RedoPaths transcription); not claimed yet',
     'C15': 'check under construction (RedoPaths transcription, aliasing); not claimed yet',
     'C16': 'check under construction (RedoDb); not claimed yet',
-    'C17': 'check under construction (queries over RedoSys); not claimed yet',
     'C18': 'check under construction (RedoLog/RedoMeta); not claimed yet',
 }
 
